@@ -11,6 +11,7 @@ import (
 	"time"
 
 	"github.com/mandykoh/prism/meta"
+	"github.com/mandykoh/prism/meta/autometa"
 	"github.com/mandykoh/prism/meta/icc"
 )
 
@@ -808,9 +809,21 @@ func init() {
 			}
 			head := make([]byte, k)
 			n, _ := io.ReadFull(st1, head)
-			if callNoPanic(func() { _, st2, _ = loaders[w2](st1) }) {
+			var md2 *meta.Data
+			var err2 error
+			if callNoPanic(func() { md2, st2, err2 = loaders[w2](st1) }) {
 				c.res.fail(Failure{Class: "C07:panic:" + w2, Desc: "loader panicked on another loader's stream", Input: in.name, Got: "panic", Want: "value or error"})
 				continue
+			}
+			// what the second loader reports is what it reports for the remaining bytes on their own (nothing is
+			// remembered from the first load)
+			got2 := "err"
+			if err2 == nil && md2 != nil {
+				got2 = "ok " + mdString(md2)
+			}
+			if fresh := observeLoad(w2, in.data[n:], allAtOnce).outcome(); fresh != got2 {
+				c.res.fail(Failure{Class: "C07:chain-outcome:" + w1 + "->" + w2, Desc: fmt.Sprintf("%s.Load, %d bytes read from its stream, the rest handed to %s.Load: the outcome differs from %s.Load on those remaining bytes directly (%s)", w1, n, w2, w2, in.name),
+					Input: map[string]interface{}{"input": in.name, "data": shortHex(in.data), "first": w1, "read": n, "second": w2}, Got: short(got2, 160), Want: short(fresh, 160)})
 			}
 			c.res.count("chain", fmt.Sprint(round), true)
 			if st2 == nil {
@@ -1193,6 +1206,47 @@ func init() {
 			})
 		}
 		c.runJobs(jobs)
+		// autometa on a stream autometa returned earlier and the caller has read from (images back to back, a
+		// skipped preamble): it behaves like the matching loader on what is left, nothing is remembered
+		for round := 0; round < c.n(200, 2000); round++ {
+			in := inputs[rng.Intn(len(inputs))]
+			if len(in.data) < 2 {
+				continue
+			}
+			second := inputs[rng.Intn(len(inputs))]
+			data := append(append([]byte{}, in.data...), second.data...)
+			k := []int{1, 7, len(in.data), len(in.data), len(in.data) / 2, 20}[rng.Intn(6)]
+			if k > len(data) {
+				k = len(data)
+			}
+			var st1 io.Reader
+			if callNoPanic(func() { _, st1, _ = autometa.Load(bytes.NewReader(data)) }) || st1 == nil {
+				continue
+			}
+			head := make([]byte, k)
+			n, _ := io.ReadFull(st1, head)
+			var md2 *meta.Data
+			var err2 error
+			if callNoPanic(func() { md2, _, err2 = autometa.Load(st1) }) {
+				continue
+			}
+			got := "err"
+			if err2 == nil && md2 != nil {
+				got = "ok " + mdString(md2)
+			}
+			want := "err"
+			for _, wh := range []string{"png", "jpeg", "webp"} {
+				if o := observeLoad(wh, data[n:], allAtOnce); o.Status == "ok" {
+					want = o.outcome()
+					break
+				}
+			}
+			c.res.count("reused-stream", fmt.Sprint(round), true)
+			if got != want {
+				c.res.fail(Failure{Class: "C19:reused-stream", Desc: fmt.Sprintf("autometa.Load on the stream of an earlier autometa.Load (%s then %s, %d bytes read in between) differs from the first specific loader that succeeds on the remaining bytes", in.name, second.name, n),
+					Input: map[string]interface{}{"first": in.name, "second": second.name, "read": n, "data": shortHex(data)}, Got: short(got, 160), Want: short(want, 160)})
+			}
+		}
 		// concrete source types: autometa on a seekable / offset / file source = autometa on the plain bytes
 		nk := 0
 		for _, in := range inputs {
